@@ -30,8 +30,13 @@ REQUIRED = ['handlers_ran', 'twin_compared', 'replies_compared', 'announcements_
             'via/rpc', 'via/bcast', 'wrap/raw', 'wrap/loop', 'broadcast_faults', 'after_termination_checks', 'in_step_deliveries', 'idle_deliveries', 'idle_thread_runs', 'dropped_replies', 'recreated_terminal_checks', 'unsubscribe_faults', 'own_subscription_handles', 'own_state_transitions']
 BOUNDS = {'quick': '6 programs, K<=2 messages (K=2 sampled 1/3), all broadcast fault points', 'thorough': '14 programs + thread-mode delivery (400 runs)'}
 MSGS = [['rpc', 'pause', 'rp'], ['rpc', 'play', None], ['rpc', 'kill', 'rk'], ['rpc', 'status', None], ['bcast', 'pause', 'bp'], ['bcast', 'play', None],
-        ['bcast', 'kill', 'bk']]
-TOLERATED = {'closed': lambda: ConnectionClosed('closed'), 'channel': lambda: ChannelInvalidStateError('invalid'), 'timeout': lambda: kiwipy.TimeoutError('timeout')}
+        ['bcast', 'kill', 'bk'],
+        # (requests without a message text: the controllers' methods take the text as an optional argument)
+        ['bcast', 'kill', None], ['bcast', 'pause', None], ['rpc', 'kill', None]]
+# what a communicator raises when it cannot deliver an announcement: the connection or channel is gone, the broker does not answer in time,
+# or the communicator object itself has been closed (at the shutdown of whatever runs the processes) while the process is still alive
+TOLERATED = {'closed': lambda: ConnectionClosed('closed'), 'channel': lambda: ChannelInvalidStateError('invalid'), 'timeout': lambda: kiwipy.TimeoutError('timeout'),
+             'commclosed': lambda: kiwipy.CommunicatorClosed()}
 
 
 def _desc(fut):
